@@ -80,6 +80,9 @@ type Decision struct {
 	Filter   bool   // filter by artifactType without announcing it
 	FHdr     string // OCI-Filters-Applied header ("" = absent)
 	FAnn     string // filtersApplied annotation ("" = absent)
+	NullBody int    // an EMPTY page is written as 1: `null`, 2: `{"tags":null}` (resp. repositories / manifests)
+	LeadWS   int    // pairs of white space bytes before the document (they count as part of it)
+	TrailDoc bool   // a second JSON document follows the first (after Pad)
 	DocLen   int    // if larger than the natural size: pad the JSON document (inside) to this size
 	Pad      int    // bytes of white space after the document
 
@@ -92,29 +95,35 @@ type Decision struct {
 	NoDigest  bool    // manifest endpoint: omit the Docker-Content-Digest header
 
 	// further Link material (RFC 8288 allows several link-values and several header lines)
-	PostSame   []string // link-values appended to the next link's line after a comma, e.g. `<u>; rel="first"`
-	PostLines  []string // further Link header lines after the line with the next link
-	PreFirst   int      // 0: none; 1: a rel="first" link-value BEFORE the next link in the same line; 2: in a header line of its own before it
-	NoProgress bool     // internal: set when RawLink is used (no ground truth for the target)
+	PostSame  []string // link-values appended to the next link's line after a comma, e.g. `<u>; rel="first"`
+	PostLines []string // further Link header lines after the line with the next link
+	// raw query fragments appended verbatim to the link query, e.g. "tok=a;b" or "t=%zz" (legal URL
+	// text that url.ParseQuery rejects); their ground truth is ParseQueryLenient
+	RawPairs   []string
+	AltPath    bool // the next link points to the sibling path of the request path (".../~p" <-> plain)
+	Redirect   bool // answer the request with a 307 to the sibling path <path>/~p first (one hop)
+	PreFirst   int  // 0: none; 1: a rel="first" link-value BEFORE the next link in the same line; 2: in a header line of its own before it
+	NoProgress bool // internal: set when RawLink is used (no ground truth for the target)
 }
 
 // Exchange is one logged request/response pair.
 type Exchange struct {
-	Kind    byte // 'T' tags, 'K' catalog, 'R' referrers, 'M' manifest
-	Repo    string
-	Path    string     // request path
-	Query   url.Values // request query as received
-	Dec     Decision
-	Status  int
-	Page    []Item   // items in the body (after server-side filtering)
-	Unfilt  []Item   // the page before filtering
-	More    bool     // items remain after this page
-	Link    string   // first Link header line ("" = absent): what http.Header.Get returns
-	Links   []string // all Link header lines
-	HasLink bool     // a well-formed link with ground truth was issued
-	Text    string   // the text between '<' and '>' of the NEXT link
-	TPath   string   // intended next target path
-	TQuery  []KV     // intended next target query (pair order)
+	Kind     byte // 'T' tags, 'K' catalog, 'R' referrers, 'M' manifest
+	Repo     string
+	Path     string     // request path
+	SentPath string     // the path the client asked for (differs from Path after Decision.Redirect)
+	Query    url.Values // request query as received
+	Dec      Decision
+	Status   int
+	Page     []Item   // items in the body (after server-side filtering)
+	Unfilt   []Item   // the page before filtering
+	More     bool     // items remain after this page
+	Link     string   // first Link header line ("" = absent): what http.Header.Get returns
+	Links    []string // all Link header lines
+	HasLink  bool     // a well-formed link with ground truth was issued
+	Text     string   // the text between '<' and '>' of the NEXT link
+	TPath    string   // intended next target path
+	TQuery   []KV     // intended next target query (pair order)
 	// ground truth of the first link-value of the first line when that is NOT the next link (PreFirst)
 	PreText  string
 	PreQuery []KV
@@ -158,13 +167,24 @@ type Registry struct {
 	Repos     []Item              // catalog in the registry's order
 	Referrers map[string][]Item   // repository + "@" + subject digest -> referrers in the registry's order
 	Manifests map[string]Manifest // repository + "@" + tag or digest -> manifest
+	// CursorKey is the query key of the continuation the registry writes into its next links and
+	// reads back ("" = "last", the key clients use for the start value).  With another key the
+	// cursor is opaque to the client: its value is CursorSalt + <name of the last item>, and the
+	// next link carries no "last" at all.
+	CursorKey  string
+	CursorSalt string
+	// Hidden names are held but never shown (e.g. no permission): a page window that consists of
+	// hidden entries only is an EMPTY page, with a Link when items remain.
+	Hidden map[string]bool
 	// NoReferrersAPI makes the referrers endpoint answer 404 (code NOT_FOUND), like a registry without it
 	NoReferrersAPI bool
 	// Decide is the split oracle; x has Kind, Repo, Path and Query filled in.
-	Decide      func(x *Exchange) Decision
-	Log         []*Exchange
-	MaxRequests int               // safety against servers that make no progress (then 508)
-	Fallback    http.RoundTripper // other paths
+	Decide         func(x *Exchange) Decision
+	Log            []*Exchange
+	Redirects      int // redirect hops issued
+	redirectedFrom string
+	MaxRequests    int               // safety against servers that make no progress (then 508)
+	Fallback       http.RoundTripper // other paths
 }
 
 // New returns an empty registry with a large cap and one-page answers.
@@ -231,7 +251,10 @@ func (r *Registry) RoundTrip(req *http.Request) (*http.Response, error) {
 		req.Body.Close()
 	}
 	p := req.URL.Path
-	x := &Exchange{Path: p, Query: req.URL.Query()}
+	x := &Exchange{Path: p, Query: ParseQueryLenient(req.URL.RawQuery)}
+	// listings are also served under the sibling path <path>/~p (Decision.AltPath)
+	alt := strings.HasSuffix(p, "/~p")
+	p = strings.TrimSuffix(p, "/~p")
 	var items []Item
 	switch {
 	case (req.Method == http.MethodGet || req.Method == http.MethodHead) && strings.HasPrefix(p, "/v2/") && strings.Contains(p, "/manifests/"):
@@ -267,6 +290,21 @@ func (r *Registry) RoundTrip(req *http.Request) (*http.Response, error) {
 	}
 	d := r.Decide(x)
 	x.Dec = d
+	x.SentPath = x.Path
+	if r.redirectedFrom != "" {
+		x.SentPath, r.redirectedFrom = r.redirectedFrom, ""
+	} else if d.Redirect && !alt {
+		// one redirect hop to the sibling path: the answer (and the base of its relative links)
+		// then belongs to a URL other than the one the client asked for
+		r.Log = r.Log[:len(r.Log)-1]
+		r.redirectedFrom = x.Path
+		r.Redirects++
+		loc := url.URL{Scheme: r.Scheme, Host: r.Host, Path: x.Path + "/~p", RawQuery: req.URL.RawQuery}
+		h := http.Header{}
+		h.Set("Location", loc.String())
+		return &http.Response{Status: "307 Temporary Redirect", StatusCode: 307, Proto: "HTTP/1.1", ProtoMajor: 1, ProtoMinor: 1,
+			Header: h, Body: http.NoBody, Request: req}, nil
+	}
 	if d.Status != 0 && d.Status != http.StatusOK {
 		code := d.ErrorCode
 		if code == "" {
@@ -276,7 +314,15 @@ func (r *Registry) RoundTrip(req *http.Request) (*http.Response, error) {
 	}
 
 	// the page
-	rest := After(items, x.Query.Get("last"))
+	ck := r.CursorKey
+	if ck == "" {
+		ck = "last"
+	}
+	cur := x.Query.Get("last")
+	if ck != "last" && x.Query.Has(ck) {
+		cur = strings.TrimPrefix(x.Query.Get(ck), r.CursorSalt)
+	}
+	rest := After(items, cur)
 	n, _ := strconv.Atoi(x.Query.Get("n"))
 	m := PageLen(d.M, r.Cap, n)
 	if m > len(rest) {
@@ -285,10 +331,19 @@ func (r *Registry) RoundTrip(req *http.Request) (*http.Response, error) {
 	x.Unfilt = rest[:m:m]
 	x.More = m < len(rest)
 	x.Page = x.Unfilt
+	if len(r.Hidden) > 0 {
+		x.Page = nil
+		for _, it := range x.Unfilt {
+			if !r.Hidden[it.Name] {
+				x.Page = append(x.Page, it)
+			}
+		}
+	}
+	shown := x.Page
 	at := x.Query.Get("artifactType")
 	if x.Kind == 'R' && at != "" && (d.Filter || FilterApplied(d.FHdr, "artifactType") || FilterApplied(d.FAnn, "artifactType")) {
 		x.Page = nil
-		for _, it := range x.Unfilt {
+		for _, it := range shown {
 			if it.ArtifactType == at {
 				x.Page = append(x.Page, it)
 			}
@@ -299,11 +354,29 @@ func (r *Registry) RoundTrip(req *http.Request) (*http.Response, error) {
 	h := http.Header{}
 	// the link
 	if x.More {
-		x.TPath = p
-		x.TQuery = append([]KV{{"last", x.Unfilt[m-1].Name}}, d.Extra...)
+		x.TPath = x.Path
+		if d.AltPath {
+			if alt {
+				x.TPath = p
+			} else {
+				x.TPath = p + "/~p"
+			}
+		}
+		cv := x.Unfilt[m-1].Name
+		if ck != "last" {
+			cv = r.CursorSalt + cv
+		}
+		x.TQuery = append([]KV{{ck, cv}}, d.Extra...)
+		for _, raw := range d.RawPairs {
+			for k, vs := range ParseQueryLenient(raw) {
+				for _, v := range vs {
+					x.TQuery = append(x.TQuery, KV{k, v})
+				}
+			}
+		}
 		keys := make([]string, 0, len(x.Query))
 		for k := range x.Query {
-			if k != "last" {
+			if k != "last" && k != ck {
 				keys = append(keys, k)
 			}
 		}
@@ -313,7 +386,7 @@ func (r *Registry) RoundTrip(req *http.Request) (*http.Response, error) {
 				x.TQuery = append(x.TQuery, KV{k, v})
 			}
 		}
-		x.Text = r.render(req.URL, x.TQuery, d)
+		x.Text = r.render(req.URL, x.TPath, x.TQuery, d)
 		x.HasLink = true
 		line := "<" + x.Text + ">" + d.Trailer
 		for _, v := range d.PostSame {
@@ -322,11 +395,11 @@ func (r *Registry) RoundTrip(req *http.Request) (*http.Response, error) {
 		if d.PreFirst != 0 {
 			// a link back to the first page, placed before the next link
 			for _, kv := range x.TQuery {
-				if kv.K != "last" {
+				if kv.K != "last" && kv.K != ck {
 					x.PreQuery = append(x.PreQuery, kv)
 				}
 			}
-			x.PreText = r.render(req.URL, x.PreQuery, d)
+			x.PreText = r.render(req.URL, x.Path, x.PreQuery, d)
 			pre := "<" + x.PreText + `>; rel="first"`
 			if d.PreFirst == 1 {
 				x.Links = []string{pre + ", " + line}
@@ -385,9 +458,22 @@ func (r *Registry) RoundTrip(req *http.Request) (*http.Response, error) {
 		}
 	}
 	x.JSONOK = true
-	if d.DocLen > len(body) {
+	if len(x.Page) == 0 && d.NullBody != 0 {
+		// how encoders of nil slices write an empty page
+		key := map[byte]string{'T': "tags", 'K': "repositories", 'R': "manifests"}[x.Kind]
+		switch d.NullBody {
+		case 1:
+			body = []byte("null")
+		default:
+			body = []byte(`{"` + key + `":null}`)
+		}
+	}
+	if d.DocLen > len(body) && body[len(body)-1] == '}' {
 		// white space before the closing brace keeps the document self-delimited
 		body = append(append(body[:len(body)-1:len(body)-1], bytes.Repeat([]byte{' '}, d.DocLen-len(body))...), '}')
+	}
+	if d.LeadWS > 0 {
+		body = append(bytes.Repeat([]byte{' ', '\n'}, d.LeadWS), body...)
 	}
 	x.DocLen = len(body)
 	if d.RawBody != nil {
@@ -395,6 +481,10 @@ func (r *Registry) RoundTrip(req *http.Request) (*http.Response, error) {
 	}
 	if d.Pad > 0 {
 		body = append(body, bytes.Repeat([]byte{'\n'}, d.Pad)...)
+	}
+	if d.TrailDoc && d.RawBody == nil {
+		// a second document after the first: a stream decoder must not look at it
+		body = append(body, []byte(`{"tags":["zzz"],"repositories":["zzz"],"manifests":[{"mediaType":"x","digest":"sha256:00","size":1}]}`)...)
 	}
 	x.TotalLen = len(body)
 	x.Status = http.StatusOK
@@ -433,29 +523,70 @@ func (r *Registry) manifest(req *http.Request, x *Exchange) *http.Response {
 		Header: h, Body: x.body, ContentLength: int64(len(m.Content)), Request: req}
 }
 
-func (r *Registry) render(u *url.URL, q []KV, d Decision) string {
-	var qs string
-	if d.RawQuery {
-		parts := make([]string, len(q))
-		for i, kv := range q {
+// ParseQueryLenient reads a raw query the way a registry may: pairs separated by '&', key and
+// value separated by the first '='; what cannot be unescaped is taken literally.  (Unlike
+// url.ParseQuery it neither rejects ';' nor drops a pair with a malformed escape.)
+func ParseQueryLenient(raw string) url.Values {
+	v := url.Values{}
+	for _, seg := range strings.Split(raw, "&") {
+		if seg == "" {
+			continue
+		}
+		k, val, _ := strings.Cut(seg, "=")
+		if u, err := url.QueryUnescape(k); err == nil {
+			k = u
+		}
+		if u, err := url.QueryUnescape(val); err == nil {
+			val = u
+		}
+		v.Add(k, val)
+	}
+	return v
+}
+
+// render writes the link text for target path tpath and query q in the form d.Variant.  Pairs
+// that stem from d.RawPairs are written verbatim, everything else escaped.
+func (r *Registry) render(u *url.URL, tpath string, q []KV, d Decision) string {
+	rawOf := map[KV]string{}
+	for _, raw := range d.RawPairs {
+		k, val, _ := strings.Cut(raw, "=")
+		for kk, vs := range ParseQueryLenient(raw) {
+			for _, v := range vs {
+				rawOf[KV{kk, v}] = k + "=" + val
+			}
+		}
+	}
+	pairs := append([]KV(nil), q...)
+	if !d.RawQuery {
+		sort.SliceStable(pairs, func(i, j int) bool { return pairs[i].K < pairs[j].K })
+	}
+	parts := make([]string, len(pairs))
+	for i, kv := range pairs {
+		if raw, ok := rawOf[kv]; ok {
+			parts[i] = raw
+		} else {
 			parts[i] = url.QueryEscape(kv.K) + "=" + url.QueryEscape(kv.V)
 		}
-		qs = strings.Join(parts, "&")
-	} else {
-		v := url.Values{}
-		for _, kv := range q {
-			v.Add(kv.K, kv.V)
-		}
-		qs = v.Encode()
 	}
-	ep := u.EscapedPath()
+	qs := strings.Join(parts, "&")
+	ep := (&url.URL{Path: tpath}).EscapedPath()
+	same := tpath == u.Path
 	switch d.Variant % NumLinkVariants {
 	case LinkAbsolutePath:
 		return ep + "?" + qs
 	case LinkPathRelative:
+		if !same { // relative to the directory of the request path
+			if strings.HasPrefix(tpath, u.Path+"/") {
+				return "./" + ep[strings.LastIndexByte((&url.URL{Path: u.Path}).EscapedPath(), '/')+1:] + "?" + qs
+			}
+			return "../" + ep[strings.LastIndexByte(ep, '/')+1:] + "?" + qs
+		}
 		return "./" + ep[strings.LastIndexByte(ep, '/')+1:] + "?" + qs
 	case LinkQueryOnly:
-		return "?" + qs
+		if same {
+			return "?" + qs
+		}
+		return ep + "?" + qs
 	case LinkSchemeRel:
 		return "//" + r.Host + ep + "?" + qs
 	}
